@@ -304,6 +304,12 @@ func (st *absState) eval(v ssa.Value) (AVal, string) {
 				return r, ""
 			}
 		}
+		if o.Pkg() != nil {
+			switch o.Pkg().Path() + "." + o.Name() {
+			case "fmt.Errorf", "errors.New":
+				return aSym("error!"), "" // a fresh non-nil error
+			}
+		}
 		return AVal{}, "unresolved call to " + o.FullName()
 	case *ssa.Lookup, *ssa.Index, *ssa.IndexAddr, *ssa.Slice, *ssa.TypeAssert, *ssa.MakeMap, *ssa.MakeSlice:
 		return aSym(v.Name()), ""
